@@ -139,6 +139,53 @@ static void run_sink(hctx* h, fcase* fc, int kind, long k, const uint8_t* good, 
 }
 
 /* ---------- abort ---------- */
+#include <sys/resource.h>
+#include <sys/wait.h>
+#include <signal.h>
+static void run_abort(hctx* h, fcase* fc, int at);
+/* abort while the device refuses further bytes (RLIMIT_FSIZE = lim, SIGXFSZ ignored, so writes fail with EFBIG): whatever
+ * the stdio buffer still holds cannot be flushed when abort closes the stream; the file must be gone all the same.
+ * Runs in a forked child (the limit is per process). */
+static void run_abort_limited(hctx* h, fcase* fc, int at, long lim) {
+    char path[128]; snprintf(path, sizeof path, "/tmp/verif_c18_%d_ab.parquet", (int)getpid());
+    fprintf(h->out, "abort");
+    { FILE* save = h->out; char* mem = NULL; size_t msz = 0; FILE* ms = open_memstream(&mem, &msz);
+      h->out = ms; print_case(h, fc); fclose(ms); h->out = save; fputs(mem + 2, h->out); free(mem); }
+    fprintf(h->out, " at=%d lim=%ld", at, lim); h_call(h);
+    fflush(NULL);
+    pid_t pid = fork();
+    if (pid == 0) {
+        signal(SIGXFSZ, SIG_IGN);
+        struct rlimit rl; getrlimit(RLIMIT_FSIZE, &rl); rl.rlim_cur = (rlim_t)lim; setrlimit(RLIMIT_FSIZE, &rl);
+        carquet_error_t err; memset(&err, 0, sizeof err);
+        carquet_schema_t* sc = carquet_schema_create(&err);
+        for (int i = 0; i < fc->ncols; i++)
+            (void)!carquet_schema_add_column(sc, fc->cols[i].name, (carquet_physical_type_t)fc->cols[i].ptype, NULL, (carquet_field_repetition_t)fc->cols[i].rep, fc->cols[i].tlen);
+        carquet_writer_options_t wo; carquet_writer_options_init(&wo);
+        wo.compression = (carquet_compression_t)fc->codec; wo.page_size = fc->page;
+        carquet_writer_t* w = carquet_writer_create(path, sc, &wo, &err);
+        for (int i = 0; w && i < fc->nsteps && i < at; i++) {
+            const fstep* t = &fc->steps[i];
+            if (t->kind == 1) (void)!carquet_writer_new_row_group(w);
+            else {
+                void* v = batch_values(&fc->cols[t->col], t);
+                int16_t* d = NULL;
+                if (t->has_defs) { d = (int16_t*)h_alloc((size_t)(t->nrows ? t->nrows : 1) * 2); for (int q = 0; q < t->nrows; q++) d[q] = t->defs[q]; }
+                (void)!carquet_writer_write_batch(w, t->col, v, t->nrows, d, NULL);
+                free(v); free(d);
+            }
+        }
+        if (w) carquet_writer_abort(w);
+        carquet_schema_free(sc);
+        struct stat sb; _exit(stat(path, &sb) == 0 ? 9 : 0);
+    }
+    int st = 0; waitpid(pid, &st, 0);
+    int rc = WIFEXITED(st) ? WEXITSTATUS(st) : 1000 + WTERMSIG(st);
+    struct stat sb; int exists = stat(path, &sb) == 0;
+    fprintf(h->out, " | rc=%d removed=%d p_no_file=%d\n", rc, !exists, !exists && rc == 0);
+    if (exists) unlink(path);
+    h->n_lines++;
+}
 static void run_abort(hctx* h, fcase* fc, int at) {
     char path[128]; snprintf(path, sizeof path, "/tmp/verif_c18_%d_ab.parquet", (int)getpid());
     fprintf(h->out, "abort");
@@ -190,7 +237,12 @@ static void plant_fake_footer(hctx* h, fcase* fc) {
         static const uint8_t v1[] = { 0x15, 0x02, 0x19, 0x1C, 0x48, 0x01, 0x61, 0x00, 0x00, 0x09, 0x00, 0x00, 0x00, 'P', 'A', 'R', '1' };
         /* FileMetaData{2: schema=[{4: name="b"}]} in long-form field header (version missing too) */
         static const uint8_t v2[] = { 0x09, 0x04, 0x1C, 0x48, 0x01, 0x62, 0x00, 0x00, 0x08, 0x00, 0x00, 0x00, 'P', 'A', 'R', '1' };
-        const uint8_t* v = h_chance(h, 1, 2) ? v1 : v2; int n = v == v1 ? (int)sizeof v1 : (int)sizeof v2;
+        /* FileMetaData with all four required fields, then 6: created_by announcing 127 bytes of which 2 exist: the decoder
+         * fails INSIDE a field value after everything required has been seen */
+        static const uint8_t v4[] = { 0x15, 0x02, 0x19, 0x2C, 0x48, 0x01, 0x72, 0x15, 0x02, 0x00, 0x15, 0x02, 0x25, 0x00, 0x18, 0x01, 0x78, 0x00,
+                                      0x16, 0x00, 0x19, 0x0C, 0x28, 0x7F, 0x41, 0x42, 0x1A, 0x00, 0x00, 0x00, 'P', 'A', 'R', '1' };
+        static int planted; int pick4 = planted++ % 3; (void)h;
+        const uint8_t* v = pick4 == 0 ? v1 : pick4 == 1 ? v2 : v4; int n = pick4 == 0 ? (int)sizeof v1 : pick4 == 1 ? (int)sizeof v2 : (int)sizeof v4;
         free(s->vals[j]); s->vals[j] = h_alloc((size_t)n); memcpy(s->vals[j], v, (size_t)n); s->vlen[j] = n;
         return;
     }
@@ -228,6 +280,8 @@ static void gen_c18(hctx* h) {
         }
         run_sink(h, &fc, 3, 0, good, ng, 2);
         for (int at = 0; at <= fc.nsteps; at++) run_abort(h, &fc, at);
+        { static const long lims[] = { 0, 4, 16, 100 };
+          for (int li = 0; li < 4; li++) for (int at = 0; at <= fc.nsteps; at += (h->thorough ? 1 : 1 + fc.nsteps / 4)) run_abort_limited(h, &fc, at, lims[li]); }
         free(good); free_case(&fc);
     }
 }
@@ -263,6 +317,7 @@ static int replay_c18(hctx* h, const h_line* l) {
     if (strcmp(l->op, "trunc") && strcmp(l->op, "sink") && strcmp(l->op, "abort")) return 0;
     fcase fc; if (parse_case(l, &fc)) { fprintf(stderr, "bad case\n"); return 1; }
     if (!strcmp(l->op, "trunc")) run_trunc(h, &fc);
+    else if (!strcmp(l->op, "abort") && h_in(l, "lim")) run_abort_limited(h, &fc, (int)h_ll(h_in(l, "at")), (long)h_ll(h_in(l, "lim")));
     else if (!strcmp(l->op, "abort")) run_abort(h, &fc, (int)h_ll(h_in(l, "at")));
     else { size_t ng; uint8_t* good = good_bytes(&fc, &ng); run_sink(h, &fc, (int)h_ll(h_in(l, "kind")), (long)h_ll(h_in(l, "k")), good, ng, (int)h_ll(h_in(l, "buf"))); free(good); }
     free_case(&fc); return 1;
